@@ -269,3 +269,5 @@ def run(pm, ctx):
     from ..conddrift import run_decisions
     from ..ownership import OWN
     run_decisions(pm, ctx, 'C05-RD', OWN['C05'])
+    from .. import exprdrift
+    exprdrift.run(pm, ctx, 'C05-RE', OWN['C05'])
